@@ -17,44 +17,33 @@ def c14_1(R):
     F = R.facts
     B = Bounds(F, field_invariants={"SegmentSizes.min_ss": {GHOST}, "SegmentSizes.max_ss": {GHOST}})
     new = R.body(SS + "::new")
-    # establishment (audited shape)
+    # establishment: evaluated symbolically (whatever the spelling - closure, helper, inline): max_ss = A - H, min_ss = min(_, A) - H for the same per-family
+    # header constant H, where A = max(config.link_mtu, _)
     okn = False
+    why = "no SegmentSizes aggregate"
     for s in new.stmts():
         if s.rv.kind == "agg" and s.rv.j.get("adt") == SS:
             names = s.rv.j["fields"]
-            tmin = trace(new, s.rv.ops[names.index("min_ss")])
-            tmax = trace(new, s.rv.ops[names.index("max_ss")])
-            if tmin.kind == "call" and tmax.kind == "call" and tmin.root[1].resolved == tmax.root[1].resolved and "closure" in tmin.root[1].resolved:
-                def targ(call):
-                    tt = trace(new, call.args[1])
-                    if tt.kind == "rv" and tt.root[1].rv.j.get("ak") == "tuple" and tt.root[1].rv.ops:
-                        return trace(new, tt.root[1].rv.ops[0])
-                    return tt
-                amax = targ(tmax.root[1])
-                amin = targ(tmin.root[1])
-                # amin = min(default, link) where link is the same local that feeds max
-                if amin.kind == "call" and call_matches(amin.root[1], ("Ord::min",)):
-                    locs = {trace(new, a).root[1] for a in amin.root[1].args if trace(new, a).kind in ("call", "multi")}
-                    if amax.kind == "call" and call_matches(amax.root[1], ("Ord::max",)) and any(x is amax.root[1] for x in locs):
-                        okn = True
-                    link_src = value_sources(new, amax.root[1].args[0]) if amax.kind == "call" else set()
-                    if ("field", "SegmentSizesConfig.link_mtu") not in link_src:
-                        okn = False
-            calc = F.body(tmin.root[1].resolved) if tmin.kind == "call" else None
-            mono = False
-            if calc is not None:
-                for st in calc.stmts():
-                    if st.place.local == 0:
-                        u = Bounds(F).ub(calc, st.rv.ops[0]) if st.rv.ops else frozenset()
-                        # result <= the parameter (subtractions only)
-                        if u is not None and any(x[0] == "param" for x in u):
-                            mono = True
-            if not mono:
-                okn = False
+            vmin = _fam_lin(F, new, s.rv.ops[names.index("min_ss")])
+            vmax = _fam_lin(F, new, s.rv.ops[names.index("max_ss")])
+            why = "min_ss / max_ss are not (one quantity) - (a constant per address family)"
+            if vmin is None or vmax is None or len(vmin[0]) != 1 or len(vmax[0]) != 1 or list(vmin[0].values()) != [1] or list(vmax[0].values()) != [1]:
+                continue
+            why = "the two sizes subtract different constants"
+            if vmin[1] != vmax[1]:
+                continue
+            (kmax,), (kmin,) = vmax[0].keys(), vmin[0].keys()
+            why = "max_ss is not derived from max(config.link_mtu, floor)"
+            if not (kmax[0] == "call" and call_matches(kmax[1], ("Ord::max",)) and any(("field", "SegmentSizesConfig.link_mtu") in value_sources(new, a) for a in kmax[1].args)):
+                continue
+            why = "min_ss is not derived from min(default, the clamped link MTU)"
+            if not (kmin[0] == "call" and call_matches(kmin[1], ("Ord::min",)) and any(trace(new, a).kind == "call" and trace(new, a).root[1] is kmax[1] and not trace(new, a).fields for a in kmin[1].args)):
+                continue
+            okn = True
     if okn:
-        R.ok("ceiling-established", new.name, "max_ss = calc(link), min_ss = calc(min(default, link)), calc = param - headers (monotone)", verdict="audited shape")
+        R.ok("ceiling-established", new.name, "max_ss = A - H, min_ss = min(default, A) - H with A = max(config.link_mtu, floor): min_ss <= max_ss <= link ceiling", verdict="symbolic evaluation")
     else:
-        R.fail([new.name, "establishment-shape"], "SegmentSizes::new no longer derives min_ss/max_ss from the configured link MTU in the audited way (min_ss <= max_ss <= link ceiling is not established)", where=new.where(), instance="ceiling-established")
+        R.fail([new.name, "establishment-shape"], "SegmentSizes::new no longer derives min_ss/max_ss from the configured link MTU so that min_ss <= max_ss <= link ceiling (%s)" % why, where=new.where(), instance="ceiling-established")
     # preservation
     n = 0
     for b in F.bodies(lambda x: x.startswith(SS + "::") and x != new.name):
@@ -530,22 +519,16 @@ def _u16_add(x, y):
     return None
 
 
-AUDITED_U16_SUB = {
-    # closure `calc` of SegmentSizes::new: mtu - ip_header_size - UTP_HEADER - UDP_HEADER.  Both call sites pass a value >= ip + UDP + UTP + 1: link_mtu is clamped up to exactly that
-    # with .max(..) first, and min_mtu = min(576 | 1280, link_mtu) with 576 / 1280 above the sum of the headers.
-    "mtu::SegmentSizes::new::{closure#0}": 3,
-}
-
-
 @rule("C14.9", ["C14", "C10", "C18"], ["E5", "E8"], "the probe-size arithmetic cannot leave the u16 range",
       "link_mtu, min_ss and max_ss are u16 and a loopback-sized link MTU (65535) is a legal setting. Every checked u16 addition / subtraction in mtu.rs is bounded symbolically from min_ss <= max_ss (C14.7) and "
       "max_ss <= 65535 - 48 (the headers SegmentSizes::new subtracts; segments never exceed max_ss, C14.1): max_ss - min_ss cannot underflow, min_ss + (max_ss - min_ss) / k <= max_ss, a bound of the "
       "form max_ss + c is in range for c <= 48, constants are summed. An addition whose operands are only known to be u16 each (e.g. min_ss + max_ss) overflows for link MTUs above 32 KiB: a panic in "
-      "the connection task in checked builds, an undersized 'probe' that stalls the search otherwise. The three subtractions in new's calc closure are discharged by the audited clamp.")
+      "the connection task in checked builds, an undersized 'probe' that stalls the search otherwise. The subtractions of the headers in SegmentSizes::new (wherever they are written: a closure, a helper, inline) are judged with the values each call passes: the left side has a per-family lower bound (link_mtu.max(headers + 1); min(576 | 1280, that)) that is at least the per-family constant on the right.")
 def c14_9(R):
     F = R.facts
     n = 0
     audited = {}
+    ctx = _new_sub_judgements(F)
     for b in F.bodies(lambda nm: nm.startswith("mtu::")):
         for s in b.stmts():
             if s.rv is None or s.rv.kind != "bin" or s.is_tracing:
@@ -563,8 +546,8 @@ def c14_9(R):
             if op_.startswith("Sub"):
                 if x == ("max", 0) and y == ("min", 0):
                     R.ok("u16-in-range", b.name, "max_ss - min_ss: min_ss <= max_ss (C14.7)")
-                elif b.name in AUDITED_U16_SUB:
-                    audited[b.name] = audited.get(b.name, 0) + 1
+                elif ctx.get((b.name, s.bb, s.idx)) is True:
+                    R.ok("u16-in-range", b.name, "%s - %s: the left side is at least the headers + 1 at every call (link MTU clamped up with .max, the family minimum is larger)" % (dx, dy))
                 else:
                     R.fail([b.name, "u16-sub-may-underflow", dx, dy], "a u16 subtraction in the MTU arithmetic whose right side is not known to be the smaller: underflow panics the connection task (checked build) or yields an absurd segment size", where=s.where(), instance="u16-in-range")
             elif op_.startswith("Add"):
@@ -576,9 +559,200 @@ def c14_9(R):
                            "min_ss + (max_ss - min_ss) / 2" % (dx, dy), where=s.where(), instance="u16-in-range")
             else:
                 R.fail([b.name, "u16-mul", dx, dy], "a u16 multiplication in the MTU arithmetic has no bound here", where=s.where(), instance="u16-in-range")
-    for name, cnt in sorted(audited.items()):
-        if cnt <= AUDITED_U16_SUB[name]:
-            R.ok("u16-in-range", name, "%d audited subtraction(s): argument clamped to > the headers first" % cnt)
-        else:
-            R.fail([name, "u16-sub-beyond-audited"], "more u16 subtractions in %s than were audited (%d > %d)" % (name, cnt, AUDITED_U16_SUB[name]), instance="u16-in-range")
     R.floor("checked u16 additions / subtractions in mtu.rs", n, 6)
+
+
+def _fam_lin(F, b, op, depth=0, env=None):
+    """value of a u16 expression of SegmentSizes::new (and the closures / helpers it calls) as ({opaque atom: coefficient}, {is_ipv4: constant}) or None.
+    `env` binds the parameters of the body being evaluated to values of the caller."""
+    from utpsa.prov import upvar_origin
+    if depth > 16:
+        return None
+
+    def const(v):
+        return ({}, {True: v, False: v})
+
+    def add(x, y, sign):
+        at = dict(x[0])
+        for k, c in y[0].items():
+            at[k] = at.get(k, 0) + sign * c
+        return ({k: c for k, c in at.items() if c}, {k: x[1][k] + sign * y[1][k] for k in (True, False)})
+    if op.kind == "const":
+        return const(op.scalar) if isinstance(op.scalar, int) else None
+    t = trace(b, op, through_casts=False)
+    if [f for f in t.fields if not f.startswith("tuple.")]:
+        return ({("field", b.name, tuple(t.fields)): 1}, {True: 0, False: 0})
+    if t.kind == "const":
+        v = getattr(t.root[1], "scalar", None)
+        return const(v) if isinstance(v, int) else None
+    if t.kind == "param":
+        if env is not None and t.root[1] in env:
+            return env[t.root[1]]
+        return ({("param", b.name, t.root[1]): 1}, {True: 0, False: 0})
+    if t.kind == "upvar":
+        o = upvar_origin(b, t.root[1])
+        if o is None:
+            return None
+        _k, idx, owner = o
+        return _fam_lin(F, owner, Operand({"k": "copy", "pl": {"l": idx, "p": []}}), depth + 1)
+    if t.kind == "multi":
+        out = {}
+        for d in t.root[3]:
+            if not (isinstance(d, Stmt) and d.rv.kind == "use"):
+                return None
+            v = _fam_lin(F, b, d.rv.ops[0], depth + 1, env)
+            if v is None or v[0] or v[1][True] != v[1][False]:
+                return None
+            fams = [x for _c, _t, x, *_ in controlling(b, d.bb) if x.startswith("field:SegmentSizesConfig.is_ipv4=")]
+            if len(fams) != 1:
+                return None
+            out[fams[0].endswith("=true")] = v[1][True]
+        return ({}, out) if set(out) == {True, False} else None
+    if t.kind == "rv" and t.root[1].rv.kind == "bin":
+        rv = t.root[1].rv
+        x, y = _fam_lin(F, b, rv.ops[0], depth + 1, env), _fam_lin(F, b, rv.ops[1], depth + 1, env)
+        if x is None or y is None:
+            return None
+        o_ = rv.op.replace("WithOverflow", "").replace("Unchecked", "")
+        if o_ == "Add":
+            return add(x, y, 1)
+        if o_ == "Sub":
+            return add(x, y, -1)
+        return None
+    if t.kind == "call":
+        c = t.root[1]
+        cb = F.body(c.resolved or "")
+        if cb is not None and cb.name.startswith("mtu::"):
+            # a local closure / helper: evaluate its return value with its parameters bound to the arguments
+            rets = [d for d in cb.all_defs(0) if isinstance(d, Stmt) and d.rv.ops]
+            if len(rets) != 1:
+                return None
+            args = list(c.args)
+            binds = {}
+            if cb.kind == "closure" and len(args) == 2:
+                # closure call ABI: (&closure, (args...)) - the tuple's fields are parameters 2..
+                tt = trace(b, args[1], through_casts=False)
+                if tt.kind == "rv" and tt.root[1].rv.kind == "agg" and tt.root[1].rv.j.get("ak") == "tuple":
+                    for i, o in enumerate(tt.root[1].rv.ops):
+                        binds[2 + i] = _fam_lin(F, b, o, depth + 1, env)
+            else:
+                for i, o in enumerate(args):
+                    binds[1 + i] = _fam_lin(F, b, o, depth + 1, env)
+            if any(v is None for v in binds.values()):
+                return None
+            return _fam_lin(F, cb, rets[0].rv.ops[0], depth + 1, binds)
+        # anything else (Ord::max / Ord::min of the configured MTU ...) is an opaque quantity, identified by the call itself
+        return ({("call", c): 1}, {True: 0, False: 0})
+    return None
+
+
+def _fam_lb(F, b, op, env=None, depth=0, visit=None):
+    """per-family lower bound {is_ipv4: n} of a u16 expression reachable from SegmentSizes::new (0 when nothing is known).  While walking, every
+    subtraction met is judged in its calling context: left lower bound >= right (a per-family constant) - recorded in `visit`."""
+    from utpsa.prov import upvar_origin
+    Z = {True: 0, False: 0}
+    if depth > 16:
+        return Z
+    if op.kind == "const":
+        return {True: op.scalar, False: op.scalar} if isinstance(op.scalar, int) else Z
+    t = trace(b, op, through_casts=False)
+    if [f for f in t.fields if not f.startswith("tuple.")]:
+        return Z
+    if t.kind == "const":
+        v = getattr(t.root[1], "scalar", None)
+        return {True: v, False: v} if isinstance(v, int) else Z
+    if t.kind == "param":
+        return env.get(t.root[1], Z) if env else Z
+    if t.kind == "upvar":
+        o = upvar_origin(b, t.root[1])
+        if o is None:
+            return Z
+        _k, idx, owner = o
+        return _fam_lb(F, owner, Operand({"k": "copy", "pl": {"l": idx, "p": []}}), None, depth + 1, visit)
+    if t.kind == "multi":
+        v = _fam_lin(F, b, op)
+        return dict(v[1]) if v is not None and not v[0] else Z
+    if t.kind == "rv" and t.root[1].rv.kind == "bin":
+        st = t.root[1]
+        rv = st.rv
+        o_ = rv.op.replace("WithOverflow", "").replace("Unchecked", "")
+        x = _fam_lb(F, b, rv.ops[0], env, depth + 1, visit)
+        y = _fam_lb(F, b, rv.ops[1], env, depth + 1, visit)
+        if o_ == "Add":
+            return {k: x[k] + y[k] for k in Z}
+        if o_ == "Sub":
+            cy = _fam_lin(F, b, rv.ops[1])
+            if cy is not None and not cy[0]:
+                ok = all(x[k] >= cy[1][k] for k in Z)
+                if visit is not None:
+                    key = (b.name, st.bb, st.idx)
+                    visit[key] = visit.get(key, True) and ok
+                return {k: max(0, x[k] - cy[1][k]) for k in Z}
+            if visit is not None:
+                visit[(b.name, st.bb, st.idx)] = False
+            return Z
+        return Z
+    if t.kind == "call":
+        c = t.root[1]
+        if call_matches(c, ("Ord::max",)) and len(c.args) == 2:
+            x, y = (_fam_lb(F, b, a, env, depth + 1, visit) for a in c.args)
+            return {k: max(x[k], y[k]) for k in Z}
+        if call_matches(c, ("Ord::min",)) and len(c.args) == 2:
+            x, y = (_fam_lb(F, b, a, env, depth + 1, visit) for a in c.args)
+            return {k: min(x[k], y[k]) for k in Z}
+        cb = F.body(c.resolved or "")
+        if cb is not None and cb.name.startswith("mtu::"):
+            rets = [d for d in cb.all_defs(0) if isinstance(d, Stmt) and d.rv.ops]
+            if len(rets) != 1:
+                return Z
+            binds = {}
+            args = list(c.args)
+            if cb.kind == "closure" and len(args) == 2:
+                tt = trace(b, args[1], through_casts=False)
+                if tt.kind == "rv" and tt.root[1].rv.kind == "agg" and tt.root[1].rv.j.get("ak") == "tuple":
+                    for i, o in enumerate(tt.root[1].rv.ops):
+                        binds[2 + i] = _fam_lb(F, b, o, env, depth + 1, visit)
+            else:
+                for i, o in enumerate(args):
+                    binds[1 + i] = _fam_lb(F, b, o, env, depth + 1, visit)
+            return _fam_lb(F, cb, rets[0].rv.ops[0], binds, depth + 1, visit)
+    return Z
+
+
+def _new_sub_judgements(F):
+    """{(body, bb, idx): ok} for every u16 subtraction on the way to min_ss / max_ss in SegmentSizes::new, judged with the values the call sites pass"""
+    new = F.body(SS + "::new")
+    visit = {}
+    if new is None:
+        return visit
+    for s in new.stmts():
+        if s.rv.kind == "agg" and s.rv.j.get("adt") == SS:
+            names = s.rv.j["fields"]
+            for fld in ("min_ss", "max_ss"):
+                _fam_lb(F, new, s.rv.ops[names.index(fld)], None, 0, visit)
+    return visit
+
+
+@rule("C14.10", ["C14", "C02", "C10"], ["E4", "E7"], "the payload ceiling subtracts the headers of the peer's address family",
+      "A datagram is IP header + 8 (UDP) + 20 (uTP) + payload, and the IP header is 20 bytes for IPv4 and 40 for IPv6. The closure SegmentSizes::new maps an MTU to a payload size with is evaluated "
+      "symbolically per address family (constants summed, the captured header size followed to its two definitions under config.is_ipv4 = true / false): it must be mtu - 48 for IPv4 and mtu - 68 for "
+      "IPv6. Anything less for IPv6 makes every full segment 20 bytes larger than the link MTU allows (dropped or EMSGSIZE on a 1280-byte path: the connection dies on ordinary segments).")
+def c14_10(R):
+    F = R.facts
+    new = R.body(SS + "::new")
+    want = {True: -48, False: -68}
+    consts = {n: F.const_scalar("constants::" + n) for n in ("IPV4_HEADER", "IPV6_HEADER", "UDP_HEADER", "UTP_HEADER")}
+    n = 0
+    for s in new.stmts():
+        if s.rv.kind == "agg" and s.rv.j.get("adt") == SS:
+            names = s.rv.j["fields"]
+            for fld in ("min_ss", "max_ss"):
+                n += 1
+                v = _fam_lin(F, new, s.rv.ops[names.index(fld)])
+                if v is not None and len(v[0]) == 1 and list(v[0].values()) == [1] and v[1] == want:
+                    R.ok("headers-of-the-family", "%s.%s" % (new.name, fld), "an MTU - 48 (IPv4), - 68 (IPv6); constants %s" % consts)
+                else:
+                    R.fail([new.name, "payload-ceiling", fld, "ipv4=%s" % (v[1].get(True) if v else "?"), "ipv6=%s" % (v[1].get(False) if v else "?")],
+                           "SegmentSizes::new computes %s = MTU %s for IPv4 and MTU %s for IPv6 (expected -48 / -68): segments to peers of that family are larger than the configured link MTU allows"
+                           % (fld, v[1].get(True) if v else "?", v[1].get(False) if v else "?"), where=s.where(), instance="headers-of-the-family")
+    R.floor("size fields initialised in SegmentSizes::new", n, 2)
